@@ -301,6 +301,9 @@ def run(chk, ctx):
     c06.r4(chk, ctx, p, ctx.mod("state_engine"))     # drain clause: join state / held events released exactly when nothing is pending
     r7(chk, ctx)
     r8(chk, ctx)
+    from . import round3
+    round3.retained_ack(chk, ctx)
+    round3.drop_arm_acks_directly(chk, ctx)
     chk.assume("the broker redelivers unacknowledged messages (trusted)")
     chk.assume("engine-internal calls do not raise; exception edges come from the may-raise table of sa/flow.py")
     chk.assume("an uncaught exception in a timer/reply callback is not acknowledged by anybody (C18.R4 findings are therefore also C03 findings)")
